@@ -69,5 +69,6 @@ func VerifC05_Ids() {
 }
 
 var VerifEntries = map[string]func(){
-	"VerifC05_Ids": VerifC05_Ids,
+	"VerifC05_Ids":        VerifC05_Ids,
+	"VerifC06_Signatures": VerifC06_Signatures,
 }
